@@ -21,7 +21,9 @@ CONSTANTS Txs, Bound, MaxCrashes, PopBeforeSave,
           WriteFails, \* BOOLEAN: a datastore write may be refused with an error (the process lives on); counted with the crashes
           ReInject   \* BOOLEAN: the same transaction may be put into the mempool again (off in the exhaustive runs: self-loops only)
 
-VARIABLES mempool,  \* transactions the execution layer offers (retained until executed)
+VARIABLES mempool,  \* transactions the execution layer offers (retained until executed): a bag, tx |-> number of copies
+                    \* (the same bytes offered again while the first copy waits are there twice; an executed batch
+                    \* takes one copy of each of its transactions away)
           seen,     \* durable seen-set of the reaper
           queue,    \* durable FIFO of batches (each a set of txs) in the sequencing layer
           pcR, cand, \* reaper control: idle | handed(cand)   cand = batch being handed off
@@ -32,21 +34,28 @@ VARIABLES mempool,  \* transactions the execution layer offers (retained until e
 
 vars == <<mempool, seen, queue, pcR, cand, pcP, cur, pend, chain, injected, crashes, excused>>
 
+MpSet == DOMAIN mempool
+BagAdd(b, t) == IF t \in DOMAIN b THEN [b EXCEPT ![t] = @ + 1] ELSE b @@ (t :> 1)
+\* take m[t] copies of every t in DOMAIN m away (never below none)
+BagSubN(b, m) == LET dec == [t \in DOMAIN b |-> IF t \in DOMAIN m THEN (IF b[t] > m[t] THEN b[t] - m[t] ELSE 0) ELSE b[t]]
+                 IN [t \in {x \in DOMAIN dec : dec[x] > 0} |-> dec[t]]
+BagSub(b, S) == BagSubN(b, [t \in S |-> 1])
+
 InChain(t) == \E i \in 1 .. Len(chain) : t \in chain[i]
 
-Init == /\ mempool = {} /\ seen = {} /\ queue = <<>> /\ pcR = "idle" /\ cand = {} /\ pcP = "idle" /\ cur = {}
+Init == /\ mempool = <<>> /\ seen = {} /\ queue = <<>> /\ pcR = "idle" /\ cand = {} /\ pcP = "idle" /\ cur = {}
         /\ pend = {} /\ chain = <<>> /\ injected = {} /\ crashes = 0 /\ excused = {}
 
 \* (the same bytes may be offered again later: they are in the mempool again, and the seen-set filters them)
-Inject(t) == /\ (t \notin injected \/ ReInject) /\ injected' = injected \cup {t} /\ mempool' = mempool \cup {t}
+Inject(t) == /\ (t \notin injected \/ ReInject) /\ injected' = injected \cup {t} /\ mempool' = BagAdd(mempool, t)
              /\ UNCHANGED <<seen, queue, pcR, cand, pcP, cur, pend, chain, crashes, excused>>
 
 \* reaper: get the mempool, keep what is not yet seen, hand it off (durable put in the queue) or be refused
 ReapHandOff ==
-    /\ pcR = "idle" /\ mempool \ seen # {}
+    /\ pcR = "idle" /\ MpSet \ seen # {}
     /\ IF Len(queue) >= Bound
           THEN UNCHANGED <<queue, pcR, cand>>                      \* refused: queue full, retried on the next tick
-          ELSE /\ queue' = Append(queue, mempool \ seen) /\ cand' = mempool \ seen /\ pcR' = "handed"
+          ELSE /\ queue' = Append(queue, MpSet \ seen) /\ cand' = MpSet \ seen /\ pcR' = "handed"
     /\ UNCHANGED <<mempool, seen, pcP, cur, pend, chain, injected, crashes, excused>>
 
 \* ... then mark seen, one durable write per transaction
@@ -70,9 +79,13 @@ EarlySave == /\ pcP = "took" /\ pend' = cur /\ pcP' = "saved"
              /\ queue' = IF PopBeforeSave THEN queue ELSE Tail(queue)     \* repaired: remove from the queue only now
              /\ UNCHANGED <<mempool, seen, pcR, cand, cur, chain, injected, crashes, excused>>
 
-Commit == /\ pcP = "saved" /\ chain' = Append(chain, cur) /\ pend' = {} /\ mempool' = mempool \ cur
+\* (mult: how many copies of each transaction the executed batch held - one each, unless the same bytes were
+\* offered twice before one hand-off)
+CommitN(mult) ==
+          /\ pcP = "saved" /\ DOMAIN mult = cur /\ chain' = Append(chain, cur) /\ pend' = {} /\ mempool' = BagSubN(mempool, mult)
           /\ cur' = {} /\ pcP' = "idle"
           /\ UNCHANGED <<seen, queue, pcR, cand, injected, crashes, excused>>
+Commit == CommitN([t \in cur |-> 1])
 
 Crash == /\ crashes < MaxCrashes /\ crashes' = crashes + 1
          \* the window of the known finding: taken from the queue, not yet saved
@@ -98,7 +111,7 @@ Spec == Init /\ [][Next]_vars
 LiveSpec == Spec /\ WF_vars(ReapHandOff) /\ WF_vars(\E t \in Txs : MarkSeen(t)) /\ WF_vars(UsePending) /\ WF_vars(Take) /\ WF_vars(EarlySave) /\ WF_vars(Commit)
 
 \* C11
-Quiescent == pcR = "idle" /\ pcP = "idle" /\ queue = <<>> /\ pend = {} /\ mempool \ seen = {}
+Quiescent == pcR = "idle" /\ pcP = "idle" /\ queue = <<>> /\ pend = {} /\ MpSet \ seen = {}
 NoLoss == Quiescent => \A t \in injected : InChain(t) \/ t \in excused
 NoLossStrict == Quiescent => \A t \in injected : InChain(t)
 NoDupWithoutCrash == crashes = 0 => \A t \in Txs : Cardinality({i \in 1 .. Len(chain) : t \in chain[i]}) <= 1
